@@ -681,6 +681,7 @@ func init() {
 		Level: "exploration",
 		Rule: "three monitors over the real TargetsDiscovery + Explore wired as in cmd/kvass/coordinator.go, driven through the channel the Prometheus discovery manager would feed: " +
 			"(1) even cases: a seed-determined sequence of 12-41 steps (full updates, partial first rounds, updates still carrying a just-removed job, reloads that add/remove/keep jobs over {ja,jb,jc}, targets that relabeling drops) with ActiveTargets / DropTargets / ActiveTargetsByHash / Explore.Get compared to a reference model after every step and all earlier snapshots re-checked for mutation; " +
+			"a third of the update runs in (1) are sent back to back (2-4 updates without waiting for the explorer) and judged after the last; " +
 			"(2) odd cases: the same kind of steps from one writer with 4-8 concurrent reader goroutines; every update carries a unique version in its target ids, reads and writes are recorded with call/return times from one monotonic clock and the history (<= 60 operations) is checked with porcupine against a sequential map job->version in which a reload removes exactly the deleted jobs; torn reads (two versions of one job) are reported directly; " +
 			"(3) a -race pass over linearizability cases with attribution of reports to reader/writer pairs of the tables; (4) 16 start-up cases: WaitInit runs while the first rounds of three jobs arrive at scripted times (one job may stay silent): it must not return before every configured job had its first round (or before its context ends) and must return within bounded time afterwards; non-trivial = every case; distinct = case index per monitor",
 		Assumptions: []string{
